@@ -1005,6 +1005,70 @@ class Gen:
         return self.lines
 
 
+def gen_unassigned(rng):
+    """A function whose locals are assigned only on some paths (branches, possibly empty loops, break/continue)
+    and read later - directly, inside comprehension clauses at every position, through lambdas and nested defs,
+    by augmented assignment - plus one call of it. Python decides whether and where 'referenced before
+    assignment' is raised; the compiler's definitely-assigned analysis must never turn that into anything else."""
+    L = []
+    ys = ["y0", "y1", "i", "j"]
+
+    def read(y):
+        return rng.choice([
+            "acc.append(len(%s))" % y, "acc.append([a + b for a in xs for b in %s])" % y, "acc.append([a for a in %s for b in xs])" % y,
+            "acc.append([a for a in xs if %s])" % y, "acc.append([len(%s) for a in zs])" % y, "acc.append({a: %s for a in xs})" % y,
+            "acc.append([a + b + c for a in xs for b in zs for c in %s])" % y, "acc.append([b for a in zs for b in (%s if a else [0])])" % y,
+            "acc.append((lambda: %s)())" % y, "acc.append((lambda k=1: [k, %s])())" % y, "%s += [7]" % y, "acc.append(%s if c2 else 0)" % y,
+            "acc.append(c2 or %s)" % y, "acc.append([x for x in [1] if c1 and %s])" % y,
+        ])
+
+    def block(ind, depth, in_loop):
+        n = rng.randint(1, 3)
+        for _ in range(n):
+            k = rng.randrange(12)
+            pad = "    " * ind
+            if k < 3:
+                L.append(pad + "%s = [%d, %d]" % (rng.choice(ys[:2]), rng.randint(0, 5), rng.randint(0, 5)))
+            elif k < 6:
+                L.append(pad + read(rng.choice(ys[:2]) if rng.random() < 0.8 else "[%s]" % rng.choice(ys[2:])))
+            elif k < 8 and depth < 3:
+                L.append(pad + "if %s:" % rng.choice(["c0", "c1", "c2", "not c0", "c0 and c1", "xs"]))
+                block(ind + 1, depth + 1, in_loop)
+                if rng.random() < 0.5:
+                    L.append(pad + "else:")
+                    block(ind + 1, depth + 1, in_loop)
+            elif k < 10 and depth < 3:
+                L.append(pad + "for %s in %s:" % (rng.choice(ys[2:]), rng.choice(["xs", "zs", "range(len(xs))"])))
+                block(ind + 1, depth + 1, True)
+            elif k == 10 and in_loop:
+                L.append(pad + "if %s:" % rng.choice(["c0", "c1", "c2"]))
+                L.append(pad + "    " + rng.choice(["break", "continue"]))
+            else:
+                y = rng.choice(ys[:2])
+                L.append(pad + "def inner_%d():" % len(L))
+                L.append(pad + "    return %s" % y)
+                L.append(pad + "acc.append(inner_%d())" % (len(L) - 2))
+    L.append("def mu(c0, c1, c2, xs, zs):")
+    L.append("    acc = []")
+    block(1, 0, False)
+    L.append("    " + read(rng.choice(ys[:2])))
+    # every name read is a local of mu in both languages (a name bound nowhere would be a *static* error in Starlark)
+    body = "\n".join(L)
+    for y in ys[:2]:
+        if not re.search(r"\b%s (=|\+=) " % y, body):
+            L.append("    if c0 and not c0:")
+            L.append("        %s = []" % y)
+    for y in ys[2:]:
+        if ("for %s in" % y) not in body:
+            L.append("    for %s in []:" % y)
+            L.append("        pass")
+    L.append("    return acc")
+    args = ", ".join([rng.choice(["True", "False"]) for _ in range(3)] + [rng.choice(["[]", "[1]", "[1, 2]", "[0]"]) for _ in range(2)])
+    L.append("emit(\"start\")")
+    L.append("emit(mu(%s))" % args)
+    return "\n".join(L) + "\n"
+
+
 def render(lines, module_level=True):
     if module_level:
         return "".join("    " * ind + t + "\n" for ind, t in lines)
